@@ -13,6 +13,7 @@ from harness.core import fl, zl, nl, bl, ql, ll, optl, FLOAT_AXIOMS, REAL_AXIOMS
 PROP = "C17"
 THEOREMS = {"Artap.Props.C17": [
     "C17_population_is_filter", "C17_populations_grouping", "C17_table_rows_paired", "C17_table_transposed_columns",
+    "C17_pareto_front_spec", "C17_pareto_values_spec",
     "C17_sorted_listing_is_permutation_of_pairs", "C17_sorted_listing_exact", "C17_goal_on_parameter_pairs",
     "C17_parameter_on_goal_pairs", "C17_find_optimum_extremal", "C17_find_optimum_first", "C17_float_find_optimum",
     "C17_maxdiff_is_max", "C17_eps_add_max_min_max", "C17_eps_add_nonneg", "C17_eps_add_identical_zero",
@@ -72,10 +73,11 @@ def eqkey(x):
 # ---------------------------------------------------------------------------------------------
 # result queries
 class Rec:
-    __slots__ = ("tag", "vec", "costs")
+    __slots__ = ("tag", "vec", "costs", "front")
 
-    def __init__(self, tag, vec, costs):
+    def __init__(self, tag, vec, costs, front=1):
         self.tag, self.vec, self.costs = int(tag), [float(v) for v in vec], [float(v) for v in costs]
+        self.front = int(front)         # recorded feature 'front_number'
 
 
 def gen_tags(rng, n):
@@ -118,7 +120,7 @@ def gen_results_case(rng):
         else:
             vec = [rng.choice(grid) for _ in range(npar)]
             costs = [rng.choice(grid) for _ in range(ng)]
-        recs.append(Rec(tags[i], vec, costs))
+        recs.append(Rec(tags[i], vec, costs, rng.choice([1, 1, 2, 3])))
     return npar, crit, recs
 
 
@@ -173,6 +175,12 @@ def results_queries(rng, npar, crit, recs, full):
     pid = rng.choice(pids)
     for w in [None] + list(range(npar)):
         qs.append(("QParameterOnIndex %s %s" % (optl(w, nl), zl(pid)), ("parameter_on_index", w, pid)))
+    front = ll([i for i, r in enumerate(recs) if r.front == 1], nl)
+    for pid in [None, rng.choice(pids)]:
+        qs.append(("QParetoIndividuals %s %s" % (front, zl(-1 if pid is None else pid)), ("pareto_individuals", pid)))
+        qs.append(("QParetoFront %s %s" % (front, zl(-1 if pid is None else pid)), ("pareto_front", pid)))
+    qs.append(("QParetoValues", ("pareto_values",)))
+    qs.append(("QPopulationIds", ("get_population_ids",)))
     qs.append(("QFindOptimum %s" % nl(0), ("find_optimum", None)))
     for gi in range(ng):
         qs.append(("QFindOptimum %s" % nl(gi), ("find_optimum", gi)))
@@ -189,12 +197,13 @@ def run_results_case(env, npar, crit, recs, queries, ctx, stats):
         ind = Individual(list(r.vec))
         ind.costs = list(r.costs)
         ind.population_id = r.tag
+        ind.features["front_number"] = r.front
         inds.append(ind)
     problem.individuals = list(inds)          # the recording
     ident = {id(o): i for i, o in enumerate(inds)}
     res = Results(problem)
     case_json = {"kind": "results", "nparams": npar, "criteria": crit,
-                 "recorded": [[r.tag, list(r.vec), list(r.costs)] for r in recs]}
+                 "recorded": [[r.tag, list(r.vec), list(r.costs), r.front] for r in recs]}
 
     def ids(lst):
         out = []
@@ -312,6 +321,32 @@ def run_results_case(env, npar, crit, recs, queries, ctx, stats):
                                            "case": dict(case_json, query=list(q))})
                 if [hxl(c) for c in got] != [hxl(c) for c in cols]:
                     fail("%s does not list the population's own values in recording order" % kind, q, out)
+            elif kind in ("pareto_individuals", "pareto_front"):
+                pid = q[1]
+                kw = {} if pid is None else {"population_id": pid}
+                want = [i for i in want_population(-1 if pid is None else pid) if recs[i].front == 1]
+                if kind == "pareto_individuals":
+                    out = ids(res.pareto_individuals(**kw))
+                    obs.append("OIds %s" % ll(out, nl))
+                    if out != want:
+                        fail("pareto_individuals(%r) returned %r, the population's individuals with front number 1 are %r" % (pid, out, want), q, out)
+                else:
+                    out = [list(map(float, c)) for c in res.pareto_front(**kw)]
+                    obs.append("OTable %s" % fll(out))
+                    if [hxl(c) for c in out] != [hxl([recs[i].costs[j] for i in want]) for j in range(len(crit))]:
+                        fail("pareto_front(%r) does not list, goal by goal, the costs of the population's individuals with front number 1" % (pid,), q, out)
+            elif kind == "pareto_values":
+                out = [list(map(float, c)) for c in res.pareto_values()]
+                obs.append("OTable %s" % fll(out))
+                last = want_population(-1)
+                full = [hxl(recs[i].costs) for i in last]
+                if [hxl(c) for c in out] != full and not (len(last) <= 1 and out == []):      # the code returns [] for <= 1 member
+                    fail("pareto_values() is not the list of cost vectors of the last generation", q, out)
+            elif kind == "get_population_ids":
+                out = sorted(int(t) for t in res.get_population_ids())
+                obs.append("OTags %s" % ll(out, zl))
+                if out != sorted(set(r.tag for r in recs)):
+                    fail("get_population_ids() = %r differs from the recorded tags" % (out,), q, out)
             elif kind == "find_optimum":
                 gi = q[1]
                 o = res.find_optimum() if gi is None else res.find_optimum(env["gname"](gi))
@@ -467,7 +502,7 @@ def run(ctx):
         tags = [r.tag for r in recs]
         allv = [hx(v) for r in recs for v in r.vec + r.costs]
         nontrivial = len(recs) >= 2
-        ctx.count(("R", npar, tuple(crit), tuple((r.tag, hxl(r.vec), hxl(r.costs)) for r in recs)), nontrivial=nontrivial)
+        ctx.count(("R", npar, tuple(crit), tuple((r.tag, hxl(r.vec), hxl(r.costs), r.front) for r in recs)), nontrivial=nontrivial)
         for h, v in (("individuals_hist", len(recs)), ("distinct_tags_hist", len(set(tags))), ("goals_hist", len(crit))):
             stats[h][v] = stats[h].get(v, 0) + 1
         for c in crit:
@@ -479,8 +514,30 @@ def run(ctx):
         if len(ctx.samples) < 2 and len(recs) >= 4 and len(set(tags)) >= 2:
             ctx.sample({"nparams": npar, "criteria": crit, "recorded": cj["recorded"],
                         "queries": [list(q) for _, q in queries[:8]], "observed": obs[:8]})
-    ctx.coq_compare("c17_results", HEADER, "c17_case", "list obs", "c17_run", "c17_obs_eqb", cases, expected, meta,
-                    shard=ctx.pick(40, 300))
+    n0 = len(ctx.mismatches)
+    bad = ctx.coq_compare("c17_results", HEADER, "c17_case", "list obs", "c17_run", "c17_obs_eqb", cases, expected, meta,
+                          shard=ctx.pick(40, 300))
+    order_only = 0
+    if bad:
+        # Exact comparison failed somewhere.  The property does not fix row/group order, the order of values among
+        # `==` keys, or which of several extremal individuals is returned: re-compare those cases up to that order
+        # (Run/C17Run.v, c17_run_canon) and keep as mismatches only the cases that still differ.
+        exact = ctx.mismatches[n0:]
+        del ctx.mismatches[n0:]
+        ctx.mismatches.extend(m for m in exact if "case_index" not in m)          # model evaluation failed
+        n1 = len(ctx.mismatches)
+        bad2 = ctx.coq_compare("c17_results_canon", HEADER, "c17_case * list obs", "bool", "c17_run_canon", "Bool.eqb",
+                               ["(%s, %s)" % (cases[i], expected[i]) for i in bad], ["true"] * len(bad),
+                               [meta[i] for i in bad], shard=ctx.pick(40, 300))
+        canon = ctx.mismatches[n1:]
+        del ctx.mismatches[n1:]
+        ctx.mismatches.extend(m for m in canon if "case_index" not in m)
+        still = set(bad[j] for j in bad2)
+        ctx.mismatches.extend(m for m in exact if m.get("case_index") in still)
+        order_only = len(bad) - len(still)
+        if order_only:
+            ctx.notes.append("%d case(s) differ from the model only in an order the property does not fix (table rows / groups, "
+                             "values among equal keys of a sorted listing, choice among several extremal individuals)" % order_only)
 
     # ---- indicators -----------------------------------------------------------------------
     icases = [(c.get("style", "corpus"), c["ref"], c["comp"], c.get("shift"), c.get("only")) for c in corpus if c["kind"] == "indicator"]
@@ -599,7 +656,7 @@ def run(ctx):
                 "d < 0, near-duplicates, empty/zero-dimensional), non-trivial when well formed with >= 3 points in total; "
                 "30% of the cases with >= 2 computed points go through Results.performance_measure")
     ctx.extra.update({"results_stats": stats, "indicator_stats": istats, "corpus_cases": len(corpus),
-                      "near_boundary": 0})
+                      "near_boundary": 0, "order_only_differences": order_only})
 
 
 LEVEL_TEXT = ("Machine-checked Coq theorems over a model of Problem.populations/population/last_population and of the Results "
